@@ -71,7 +71,7 @@ func c03Seq(tokens []string, conc int, extra string, b Bounds) *Scenario {
 				}
 				for i, mi := range h.msgs {
 					for _, n := range mi.Members {
-						if n.Kind != 'n' {
+						if n.Kind != 'n' && n.Kind != 'z' {
 							continue
 						}
 						for j := i + 1; j < len(h.msgs); j++ {
@@ -161,6 +161,7 @@ func c03Gate(later string, conc int, b Bounds) *Scenario {
 func c03Scenarios(tier string) []*Scenario {
 	var out []*Scenario
 	core := [][]string{
+		{"z", "z"}, {"z", "c"},
 		{"n", "c"}, {"n", "n"}, {"n", "[cc]"}, {"[nc]", "c"}, {"[cn]", "n"}, {"[nn]", "c"}, {"n", "[nc]"},
 		{"c", "n", "c"}, {"n", "c", "n"}, {"n", "n", "c"}, {"[nc]", "n", "c"}, {"c", "[nn]", "c"},
 	}
